@@ -71,8 +71,17 @@ def ip2n(ip):
     return ((a * 256 + b) * 256 + c) * 256 + d
 
 
+IPV4_LITERALS = ['172.16.0.4', '172.16.1', '172.16.0.02', '0xac.16.0.3', '172.16.2', '172.1048577']
+
+
 def resolve(host):
-    """Deterministic `socket.gethostbyname`: 'h<k>...' -> 172.16.0.<k mod HOSTIPS + 1>."""
+    """Deterministic `socket.gethostbyname`: 'h<k>...' -> 172.16.0.<k mod HOSTIPS + 1>; an IPv4 literal (in any
+    spelling `inet_aton` accepts) -> its canonical dotted quad, as the real resolver returns it."""
+    if host and host[0] != 'h':
+        try:
+            return real_socket.inet_ntoa(real_socket.inet_aton(host))
+        except (OSError, TypeError, ValueError):
+            pass
     digits = ''.join(ch for ch in host[1:] if ch.isdigit()) or '0'
     return '172.16.0.%d' % (int(digits) % HOSTIPS + 1)
 
@@ -137,6 +146,11 @@ def _gen_container(rng, idx, prev, common_pid):
     else:
         spec['passthrough'] = ['h%d%s' % (rng.randint(0, 5), rng.choice(['', 'a', 'b']))
                                for _ in range(rng.randint(1, 3))]
+        r_lit = random.Random(repr(rng.getstate()[1][:4]) + 'ipv4-literal')
+        if r_lit.random() < 0.3:
+            # (side stream) a host given as an IPv4 literal, also in the spellings inet_aton / the resolver accept
+            # (short form, octal, hex): start and finish must agree on the address it stands for
+            spec['passthrough'][r_lit.randrange(len(spec['passthrough']))] = r_lit.choice(IPV4_LITERALS)
     if mode == 'direct':
         # literal ports, possibly colliding (the edge stream)
         pool = list(range(5000, 5000 + rng.choice([3, 8, 40])))
